@@ -722,25 +722,66 @@ func c47NUL(m *mon.M, i int64, r *rand.Rand) {
 }
 
 func c47Frag18(m *mon.M, i int64, r *rand.Rand) {
-	switch i {
-	case 0: // the very first reply of a conversation configured with FragmentSize 18
-		b := newBus(m, r, 0, 1, 18, 18)
-		b.recv(b.a, []byte(otr.QueryMessage))
-	default:
-		b := encryptedPair(m, r)
-		if b.dead {
-			return
+	unfragmented := func(b *bus, wire [][]byte, what string) bool {
+		for _, w := range wire {
+			if !bytes.HasPrefix(w, []byte("?OTR:")) {
+				m.Violation("fragment-size-18-output-malformed", b.witness(map[string]any{"call": what, "wire": short(w)}))
+				return false
+			}
 		}
-		b.a.c.FragmentSize = 18
-		switch i {
-		case 1:
-			b.send(b.a, []byte("hello"))
-		case 2:
-			b.authenticate(b.a, "", []byte("s"))
-		case 3:
-			b.end(b.a)
-		}
+		return true
 	}
 	m.Count("frag18_cases", 1)
 	m.Distinct(fmt.Sprintf("frag18|%d", i))
+	if i == 0 { // whole conversation configured with FragmentSize 18 from the start
+		b := newBus(m, r, 0, 1, 18, 18)
+		b.handshake("query-to-a")
+		if b.dead {
+			return
+		}
+		if !b.a.c.IsEncrypted() || !b.b.c.IsEncrypted() {
+			m.Violation("ake-not-encrypted:fragment-size-18", b.witness(nil))
+			return
+		}
+		for _, x := range []*side{b.a, b.b} {
+			msg := []byte("with fragment size 18 from " + x.name)
+			w, err := b.send(x, msg)
+			if b.dead || err != nil || !unfragmented(b, w, "Send") {
+				return
+			}
+			if ok, why := expectDelivered(b.deliverAll(b.peer(x), w), msg); !ok && !b.dead {
+				m.Violation("data-message-not-received-unchanged:fragment-size-18", b.witness(map[string]any{"why": why}))
+				return
+			}
+		}
+		return
+	}
+	b := encryptedPair(m, r)
+	if b.dead {
+		return
+	}
+	b.a.c.FragmentSize = 18
+	switch i {
+	case 1:
+		msg := []byte("hello")
+		w, err := b.send(b.a, msg)
+		if b.dead || err != nil || !unfragmented(b, w, "Send") {
+			return
+		}
+		if ok, why := expectDelivered(b.deliverAll(b.b, w), msg); !ok && !b.dead {
+			m.Violation("data-message-not-received-unchanged:fragment-size-18", b.witness(map[string]any{"why": why}))
+		}
+	case 2:
+		w, err := b.authenticate(b.a, "", []byte("s"))
+		if b.dead || err != nil {
+			return
+		}
+		unfragmented(b, w, "Authenticate")
+	case 3:
+		w := b.end(b.a)
+		if b.dead {
+			return
+		}
+		unfragmented(b, w, "End")
+	}
 }
